@@ -5,7 +5,7 @@
    (ParseDuration / Duration.String), Model/C18Check.v (boolean forms). *)
 From Coq Require Import List NArith ZArith Bool String.
 From RareV Require Import Gen.GenTime Base.Hex Base.Num Model.Calendar Model.TimeFmt Model.Duration Model.C18Check.
-From RareV Require Import Proofs.CalendarSweep Proofs.CalendarProof.
+From RareV Require Import Proofs.CalendarSweep Proofs.CalendarProof Proofs.CalendarBucket Proofs.TimeFmtTok Proofs.TimeFmtProof Proofs.DurationProof.
 Import ListNotations.
 Local Open Scope Z_scope.
 
@@ -72,6 +72,114 @@ Theorem C18_iso_thursday : forall day,
   weekday (iso_thursday day) = 4 /\ day - 3 <= iso_thursday day <= day + 3 /\ weekday (iso_thursday day - 3) = 1.
 Proof. exact iso_thursday_spec. Qed.
 Print Assumptions C18_iso_thursday.
+
+(* the first day of the month of any day is read back as (y, m, 1) *)
+Theorem C18_month_start : forall z y m d,
+  civil_from_days z = (y, m, d) -> civil_from_days (days_from_civil y m 1) = (y, m, 1).
+Proof. exact month_start_inverse. Qed.
+Print Assumptions C18_month_start.
+
+(* ---- round trip: `time` with an explicit format parses what `timeformat` printed back to the
+   same instant and offset — for every table layout holding date, time and a numeric offset
+   (RFC3339 = the default, RFC3339N, RFC1123Z, RUBY, NGINX; any letter case of the name), every
+   instant whose local year is 0..9999 and every zone offset that is a whole number of minutes
+   within +-24 h; whatever the zone abbreviation printed and whatever zone the parser is given ---- *)
+Theorem C18_roundtrip : forall fmt,
+  existsb (bytes_eqb (upper fmt)) rt_names = true ->
+  forall t off abbr, in_range t off = true -> rt_offset off = true ->
+  exists p, parse_layout (named_format fmt) (format_layout (named_format fmt) (civil_of t 0 off abbr)) = Some p /\
+            forall names lo fo, resolve names lo fo p = (t, off).
+Proof. exact rt_names_layout. Qed.
+Print Assumptions C18_roundtrip.
+
+(* the same on the functions of funcsTime.go: {time {timeformat t F tz} F tz'} = t *)
+Theorem C18_roundtrip_kf : forall fmt t off abbr names lo fo,
+  existsb (bytes_eqb (upper fmt)) rt_names = true -> in_range t off = true -> rt_offset off = true ->
+  kf_time (kf_timeformat (itoa t) fmt off abbr) fmt names lo fo = itoa t.
+Proof. exact roundtrip_kf. Qed.
+Print Assumptions C18_roundtrip_kf.
+
+(* RFC822Z (two-digit year, no seconds) also holds date, time and numeric offset but is not covered:
+   _partial — the theorem above is for the five layouts with a four-digit year and seconds *)
+Example C18_roundtrip_partial_rfc822z_example :
+  kf_time (kf_timeformat (s2b "1583020800") (s2b "RFC822Z") 3600 []) (s2b "RFC822Z") [] 0 0 = s2b "1583020800".
+Proof. vm_compute. reflexivity. Qed.
+
+(* ---- buckettime: two instants in the same unit of local time (same truncation) get the same
+   key, for each of the seven bucket layouts of the table; the truncation is not after the instant;
+   the keys are the zero-padded year-month-day hour fields cut at the unit ---- *)
+Theorem C18_bucket_truncates : forall u t t' n n' off a a',
+  trunc_local u (t + off) = trunc_local u (t' + off) -> (u = UNanos -> n = n') ->
+  format_layout (unit_layout u) (civil_of t n off a) = format_layout (unit_layout u) (civil_of t' n' off a').
+Proof. exact bucket_same_key. Qed.
+Print Assumptions C18_bucket_truncates.
+Theorem C18_trunc_le : forall u l, trunc_local u l <= l.
+Proof. exact trunc_local_le. Qed.
+Print Assumptions C18_trunc_le.
+Theorem C18_bucket_key : forall c,
+  format_layout (unit_layout UYears) c = append_int (c_year c) 4 /\
+  format_layout (unit_layout UMonths) c = append_int (c_year c) 4 ++ [45%N] ++ append_int (c_month c) 2 /\
+  format_layout (unit_layout UDays) c =
+    append_int (c_year c) 4 ++ [45%N] ++ append_int (c_month c) 2 ++ [45%N] ++ append_int (c_day c) 2 /\
+  format_layout (unit_layout UHours) c =
+    append_int (c_year c) 4 ++ [45%N] ++ append_int (c_month c) 2 ++ [45%N] ++ append_int (c_day c) 2 ++ [32%N] ++
+    append_int (c_hour c) 2.
+Proof. exact bucket_key_explicit. Qed.
+Print Assumptions C18_bucket_key.
+
+(* ---- duration / durationformat: whole seconds survive the round trip (no int64 overflow:
+   |s| <= 9223372036), on nanoseconds and on the two functions ---- *)
+Theorem C18_duration_roundtrip_ns : forall s,
+  - max_whole_secs <= s <= max_whole_secs ->
+  parse_duration (format_duration (s * 1000000000)) = Some (s * 1000000000).
+Proof. exact duration_roundtrip_ns. Qed.
+Print Assumptions C18_duration_roundtrip_ns.
+Theorem C18_duration_roundtrip : forall s,
+  - max_whole_secs <= s <= max_whole_secs -> kf_duration (kf_durationformat (itoa s)) = itoa s.
+Proof. exact duration_roundtrip_kf. Qed.
+Print Assumptions C18_duration_roundtrip.
+
+(* ---- unparseable input yields the error marker ---- *)
+Theorem C18_time_error : forall str fmt names lo fo,
+  parse_layout (named_format fmt) str = None -> kf_time str fmt names lo fo = timeErrorParsing.
+Proof. exact time_error_marker. Qed.
+Theorem C18_buckettime_error : forall str b fmt names lo fo l,
+  bucket_layout b = Some l -> parse_layout (named_format fmt) str = None ->
+  kf_buckettime str b fmt names lo fo = timeErrorParsing.
+Proof. exact buckettime_error_marker. Qed.
+Theorem C18_timeformat_error : forall arg fmt off abbr, atoi arg = None -> kf_timeformat arg fmt off abbr = timeErrorNum.
+Proof. exact timeformat_error_marker. Qed.
+Theorem C18_duration_error : forall s, parse_duration s = None -> kf_duration s = timeErrorParsing.
+Proof. exact duration_error_marker. Qed.
+Theorem C18_durationformat_error : forall a, atoi a = None -> kf_durationformat a = timeErrorNum.
+Proof. exact durationformat_error_marker. Qed.
+Print Assumptions C18_durationformat_error.
+Example C18_error_examples :
+  kf_time (s2b "2020-02-30T00:00:00Z") (s2b "RFC3339") [] 0 0 = s2b "<PARSE-ERROR>" /\
+  kf_time (s2b "2020-02-29T00:00:00Zx") (s2b "RFC3339") [] 0 0 = s2b "<PARSE-ERROR>" /\
+  kf_time (s2b "2020-02-29T24:00:00Z") (s2b "RFC3339") [] 0 0 = s2b "<PARSE-ERROR>" /\
+  kf_duration (s2b "1d") = s2b "<PARSE-ERROR>" /\ kf_durationformat (s2b "1h") = s2b "<BAD-TYPE>".
+Proof. vm_compute. repeat split; reflexivity. Qed.
+
+(* ---- the boolean forms used on the implementation's outputs accept what the models produce ---- *)
+Theorem C18_check_format_sound : forall arg fmt off abbr,
+  C18_check_format arg fmt off abbr (kf_timeformat arg fmt off abbr) = true.
+Proof. exact check_format_sound. Qed.
+Print Assumptions C18_check_format_sound.
+Theorem C18_check_durationformat_sound : forall arg, C18_check_durationformat arg (kf_durationformat arg) = true.
+Proof. exact check_durationformat_sound. Qed.
+Theorem C18_check_duration_sound : forall s, C18_check_duration s (kf_duration s) = true.
+Proof. exact check_duration_sound. Qed.
+Print Assumptions C18_check_durationformat_sound.
+
+(* non-vacuity: a DST-zone instant at a quarter / ISO-year boundary *)
+Example C18_example :
+  kf_timeformat (s2b "1609455600") (s2b "rfc1123z") (-18000) (s2b "EST") = s2b "Thu, 31 Dec 2020 18:00:00 -0500" /\
+  kf_timeattr (s2b "1609455600") (s2b "yearweek") (-18000) = s2b "2020-53" /\
+  kf_timeattr (s2b "1609477200") (s2b "yearweek") (-18000) = s2b "2020-53" /\
+  kf_timeattr (s2b "1609477200") (s2b "quarter") (-18000) = s2b "1" /\
+  kf_buckettime (s2b "Thu, 31 Dec 2020 18:00:00 -0500") (s2b "mo") (s2b "RFC1123Z") [] 0 0 = s2b "2020-12".
+Proof. vm_compute. repeat split; reflexivity. Qed.
 
 (* ---- translator obligations (coq/Gen/GenTime.v is regenerated from funcsTime.go on every run) ---- *)
 (* every layout of the named-format table and of the bucket table consists of tokens the parser model covers *)
